@@ -284,8 +284,12 @@ func c19Read(c *fw.Case) {
 	}
 	leadingNull := false
 	kinds := make([]string, ncols)
+	unsortedNames, nameShift := rng.Intn(2) == 0, rng.Intn(8)
 	for i := 0; i < ncols; i++ {
 		name := fmt.Sprintf("c%d", i)
+		if unsortedNames {
+			name = []string{"zz", "ID", "name", "b", "ACTIVE", "a", "m_9", "Col"}[(i*5+nameShift)%8] + fmt.Sprint(i)
+		}
 		t.Cols = append(t.Cols, name)
 		kinds[i] = []string{"int", "float", "bool", "text", "bytes", "int->bool", "text->float"}[rng.Intn(7)]
 		switch kinds[i] {
